@@ -1147,16 +1147,19 @@ func runSequence(c *lib.Ctx, tree *node, calls []call, e2e bool, toModel bool) {
 		//      of the call that filled it; and only roots of the history are cached
 		for _, w := range cache {
 			c.Oracle()
-			fg := fs.NewGlobber(fs.HostFS, buildFileNames)
 			pkg := w.Root
 			if pkg == "." {
 				pkg = ""
 			}
-			safeGlob(fg, call{Pkg: pkg, Inc: []pat{{segOf([]atom{star()})}}, Hidden: true, Syms: true}, nil)
-			fc := fs.VerifC21Cache(fg)
-			if len(fc) != 1 || !sameWalked(fc[0], w) {
-				c.Fail("globber-cache-entry-differs-from-fresh-walk", fmt.Sprintf("after the history the Globber's cache for root %q holds files %q symlinks %q subpackages %q; a fresh walk of that root collects %+v",
-					w.Root, w.FileNames, w.Symlinks, w.SubPackages, fc), js)
+			for _, flags := range [][2]bool{{true, false}, {false, true}} {
+				fg := fs.NewGlobber(fs.HostFS, buildFileNames)
+				safeGlob(fg, call{Pkg: pkg, Inc: []pat{{segOf([]atom{star()})}}, Hidden: flags[0], Syms: flags[1]}, nil)
+				fc := fs.VerifC21Cache(fg)
+				if len(fc) != 1 || !sameWalked(fc[0], w) {
+					c.Fail("globber-cache-entry-differs-from-fresh-walk", fmt.Sprintf("after the history the Globber's cache for root %q holds files %q symlinks %q subpackages %q; a fresh walk of that root (by a glob with hidden=%v, include_symlinks=%v) collects %+v",
+						w.Root, w.FileNames, w.Symlinks, w.SubPackages, flags[0], flags[1], fc), js)
+					break
+				}
 			}
 			if _, ok := roots[pkg]; !ok {
 				c.Fail("globber-cache-key-not-a-root-of-the-history", fmt.Sprintf("the cache holds root %q, which no call named", w.Root), js)
